@@ -73,6 +73,9 @@ def gen_params(family, rng, simple=False):
             p["biort_tuple"] = True
         elif r < 0.3:
             p["qshift_tuple"] = True
+        if r < 0.3 and rng.random() < 0.4:
+            # the loader's own arrays, not copies of them
+            p["tuple_alias"] = True
         elif r < 0.36:
             # an argument TYPE the pinned constructors reject (TypeError): a
             # user-labelled pywt.Wavelet as level-1 filter set
@@ -310,12 +313,12 @@ def _build(family, p, given=None):
             bw = p["biort_pywt"]
             biort = pywt.Wavelet(bw["label"], filter_bank=pywt.Wavelet(bw["name"]).filter_bank)
         if p.get("biort_tuple"):
-            t = [a.copy() for a in L.coeffs.biort(biort)]
+            t = [a if p.get("tuple_alias") else a.copy() for a in L.coeffs.biort(biort)]
             biort = (t[1], t[3]) if inv else (t[0], t[2])
             if given is not None:
                 given.extend((a, a.tobytes()) for a in biort)
         if p.get("qshift_tuple"):
-            t = [a.copy() for a in L.coeffs.qshift(qshift)]
+            t = [a if p.get("tuple_alias") else a.copy() for a in L.coeffs.qshift(qshift)]
             qshift = (t[2], t[3], t[6], t[7]) if inv else (t[0], t[1], t[4], t[5])
             if given is not None:
                 given.extend((a, a.tobytes()) for a in qshift)
